@@ -781,7 +781,7 @@ theorem C07_registered_routes (f : Fmt) (opt : String) :
     decoderOf f.name opt = some f.name ∧ decoderOf "http" f.name = some f.name
       ∧ decoderOf "http/json" opt = some "jsonline" ∧ decoderOf "http" "jsonline" = some "jsonline"
       ∧ (∀ t, Pandora.Gen.AmmoDec.registrationsG? = some t → t = regTable)
-      ∧ Pandora.Gen.AmmoDec.validDecodersG = validDecoders := by
+      ∧ (∀ v, Pandora.Gen.AmmoDec.validDecodersG? = some v → v = validDecoders) := by
   refine ⟨?_, ?_, rfl, by decide, Pandora.Bridge.C07.registrations_eq, Pandora.Bridge.C07.decoderTypes_eq.2⟩
   · cases f <;> rfl
   · cases f <;> decide
